@@ -515,6 +515,24 @@ def check(inp):
                 out.append(({'kind': 'compare_not_numeric', 'class': cls}, {'compare_version': got, 'argument': 'Software' if flavour else 'str'}, want))
             if got != -back:
                 out.append(({'kind': 'compare_not_antisymmetric', 'class': cls}, {'a_vs_b': got, 'b_vs_a': back, 'argument': 'Software' if flavour else 'str'}, 'a_vs_b == -b_vs_a'))
+    elif k == 'compare_after':
+        # the judgement for (product, a, b) must not depend on what was compared before: the same strings are first compared as releases of the other products
+        p, a, b = inp['product'], tuple(inp['a']), tuple(inp['b'])
+        for q in inp['before']:
+            for x, y in ((a, b), (b, a)):
+                try:
+                    cmp_impl(q, x, y, False)
+                    cmp_impl(q, x, y, True)
+                except Exception:
+                    pass
+        want = spec_cmp(p, a, b)
+        for flavour in (False, True):
+            got = cmp_impl(p, a, b, flavour)
+            back = cmp_impl(p, b, a, flavour)
+            if sign(got) != want:
+                out.append(({'kind': 'compare_depends_on_history', 'class': 'grammar'}, {'compare_version': got, 'argument': 'Software' if flavour else 'str', 'compared_before_as': inp['before']}, want))
+            elif got != -back:
+                out.append(({'kind': 'compare_depends_on_history', 'class': 'grammar'}, {'a_vs_b': got, 'b_vs_a': back, 'compared_before_as': inp['before']}, 'a_vs_b == -b_vs_a'))
     elif k == 'trans':
         p, a, b, c = inp['product'], tuple(inp['a']), tuple(inp['b']), tuple(inp['c'])
         cls = shape_class(a, b, c)
@@ -703,6 +721,14 @@ def run(ctx):
             p = r.choice(products)
             a, b = r.choice(vs), r.choice(vs)
             add({'check': 'compare', 'product': p, 'a': [a, r.choice(PATCHES[p])], 'b': [b, r.choice(PATCHES[p])]}, a != b, ['pairs-small-block'])
+    for _ in range(ctx.scale(1500, 20000)):
+        p = r.choice(products)
+        a, b = r.choice(vs), r.choice(vs)
+        if r.random() < 0.6:
+            b = a
+        others = [q for q in products if q != p]
+        r.shuffle(others)
+        add({'check': 'compare_after', 'product': p, 'a': [a, r.choice(PATCHES[p])], 'b': [b, r.choice(PATCHES[p])], 'before': others}, True, ['history'])
     pairs = []
     for _ in range(ctx.scale(40000, 1000000)):
         p = r.choice(products)
